@@ -233,3 +233,164 @@ Example C16_goc_example_race :
     g_root s 7 = Some 1 /\ g_sc s 1 = 2 /\ g_next s = 2 /\
     g_lists s = [(1, 7, 1); (0, 7, 1)].
 Proof. exact goc_example_race. Qed.
+
+(* ================================================================================================
+   Connection attempts in flight, and what decides a collection (strengthening U16).
+
+   A peer leaves the root list in ONE place (RootPeerList.onClosedConnRemoved), evaluated only when a
+   connection has just been removed from the peer (Peer.connectionCloseStateChange); nothing comes
+   back later.  So the decision (Peer.canRemove) must depend on the peer's connection lists and its
+   reference count ONLY: a decision that also waits for something else -- e.g. "nobody is dialling
+   this peer" (len(p.newConnLock) == 0) -- keeps the peer when its last connection goes away, and
+   when that something ends (the dial FAILS) nobody drops it.
+   Model/PeerDial.v: the state of Model/PeerBook.v plus newConnLock of every Peer object and the
+   goroutines of Peer.GetConnection / getConnectionRelay (wait for the lock, re-check, Connect:
+   hanging dial, then failure or a completed handshake = LNew run by that goroutine), any number of
+   them, interleaved in every way with every label of PeerBook.v. *)
+From Verif Require Import Gen.GenPeerDial Model.PeerDial Proofs.PeerDialP Proofs.PeerDialGenP.
+
+(* TIE (regenerated from the source on every run, Gen/GenPeerDial.v + Gen/GenPeerGoc.v):
+   1. Peer.canRemove = can_remove: a function of inboundConnections, outboundConnections, scCount
+      (uint32 not wrapped, lists shorter than 2^62) -- any further conjunct breaks this equality;
+   2. RootPeerList.onClosedConnRemoved with THAT canRemove = the collector steps of the model;
+   3. Peer.connectionCloseStateChange = step PCbRem: the collector runs (and the status callback
+      fires) exactly when a connection was removed -- unconditionally then, never otherwise;
+   4. the same, as a table;
+   5. Peer.GetConnection after lockNewConn = step DCheck of the dial model (re-check, else Connect;
+      the lock is released when no attempt is made);  6. getConnectionRelay does the same. *)
+Theorem C16_collect_decision_generated :
+  (forall P, peer_small P -> peerCanRemove (p_in P) (p_out P) (p_sc P) = can_remove P) /\
+  (forall (s : PeerBook.st) hp,
+     (forall q, s_root s hp = Some q -> peer_small (s_peer s q)) ->
+     rootCollect (s_root s)
+       (fun q => peerCanRemove (p_in (s_peer s q)) (p_out (s_peer s q)) (p_sc (s_peer s q))) hp =
+     match s_root s hp with
+     | None => s_root s
+     | Some q => if can_remove (s_peer s q) then s_root (set_root s hp None) else s_root s
+     end) /\
+  (forall s t c pid todo,
+     let P := s_peer s pid in
+     let r := peerCloseChange false false (is_active (s_conn s c))
+                (found (swap_remove c (p_in P))) (found (swap_remove c (p_out P))) in
+     let s' := step_thread true s t (PCbRem c pid todo) in
+     s_thr s' t = Some (if fst r then PCol1 c (p_hp P) todo else PCbGet c todo) /\
+     s_log s' = (if snd r then s_log s ++ [p_hp P] else s_log s)) /\
+  (forall a fi fo, peerCloseChange false false a fi fo = (negb a && (fi || fo), negb a && (fi || fo))) /\
+  (forall ds d pid, d_thr ds d = Some (DCheck pid) ->
+     exists ds', dstep ds (DStep d) = Some ds' /\ d_s ds' = d_s ds /\
+       if peerGetConnLocked (has_active (d_s ds) pid) =? 0
+       then d_thr ds' d = None /\ d_lock ds' pid = false
+       else d_thr ds' d = Some (DConn pid) /\ d_lock ds' = d_lock ds) /\
+  (forall a, peerGetConnRelayLocked a = peerGetConnLocked a).
+Proof. exact dial_generated. Qed.
+Print Assumptions C16_collect_decision_generated.
+
+(* the collector steps PCol1, PCol2, PCol3 of the model, run one after the other *)
+Theorem C16_collector_steps : forall s t c hp todo,
+  let s1 := step_thread true s t (PCol1 c hp todo) in
+  match s_root s hp with
+  | None => s_thr s1 t = Some (PCbGet c todo) /\ s_root s1 = s_root s
+  | Some q =>
+      s_thr s1 t = Some (PCol2 c hp q todo) /\
+      let s2 := step_thread true s1 t (PCol2 c hp q todo) in
+      if can_remove (s_peer s q)
+      then s_thr s2 t = Some (PCol3 c hp todo) /\
+           s_root (step_thread true s2 t (PCol3 c hp todo)) = s_root (set_root s hp None)
+      else s_thr s2 t = Some (PCbGet c todo) /\ s_root s2 = s_root s
+  end.
+Proof. exact collector_steps. Qed.
+Print Assumptions C16_collector_steps.
+
+(* Connection attempts never touch the bookkeeping state on their own: every history with
+   attempts (started, waiting for newConnLock, hanging in the dial, failed, completed; on rooted and
+   on orphaned Peer objects; any number, any overlap) has the bookkeeping state of a history of
+   Model/PeerBook.v. *)
+Theorem C16_dial_projects : forall ls ds,
+  drun dinit ls = Some ds -> exists ls', run init ls' = Some (d_s ds).
+Proof. exact dial_projects. Qed.
+Print Assumptions C16_dial_projects.
+
+(* THE COLLECTION CLAUSE, restated over histories with connection attempts.  For EVERY such
+   history -- in particular: an attempt to hp pending, hp's last listed connection removed during
+   that window, no list referencing hp, the attempt then FAILING -- at every moment at which no
+   goroutine is inside a bookkeeping function (attempts may even still hang): a root peer without
+   connections and without references did not get there by losing a connection, and scCount is the
+   number of peer-list entries holding the peer. *)
+Theorem C16_peer_gc_dial : forall ls ds,
+  drun dinit ls = Some ds -> quiescent (d_s ds) -> peer_gc (d_s ds).
+Proof. exact peer_gc_dial. Qed.
+Print Assumptions C16_peer_gc_dial.
+
+(* ... in the words of the property: once nothing is in flight (no activation, no close callback, no
+   connection attempt), a Peer object whose last change was the loss of a connection and that has no
+   connection and no reference left is not in the root list, under any host:port. *)
+Theorem C16_collected_when_quiet : forall ls ds,
+  drun dinit ls = Some ds -> dquiescent ds ->
+  forall hp pid, let P := s_peer (d_s ds) pid in
+    p_in P = [] -> p_out P = [] -> refs (d_s ds) pid = 0 -> p_last P = 2 ->
+    s_root (d_s ds) hp <> Some pid.
+Proof. exact collected_when_quiet. Qed.
+Print Assumptions C16_collected_when_quiet.
+
+(* the other quiescent-state clauses hold with attempts in flight as well *)
+Theorem C16_channel_tracks_dial : forall ls ds,
+  drun dinit ls = Some ds -> quiescent (d_s ds) -> channel_tracks (d_s ds).
+Proof. exact channel_tracks_dial. Qed.
+Print Assumptions C16_channel_tracks_dial.
+
+Theorem C16_callbacks_dial : forall ls ds,
+  drun dinit ls = Some ds -> callbacks_exact (d_s ds).
+Proof. exact callbacks_dial. Qed.
+Print Assumptions C16_callbacks_dial.
+
+(* newConnLock: held iff a goroutine is between lockNewConn and its unlock for that Peer object, at
+   most one per object (one connection attempt per peer at a time); every attempt gives it back. *)
+Theorem C16_newconn_lock : forall ls ds,
+  drun dinit ls = Some ds ->
+  (forall pid, d_lock ds pid = true <-> exists d, holds (d_thr ds d) pid) /\
+  (forall d1 d2 pid, holds (d_thr ds d1) pid -> holds (d_thr ds d2) pid -> d1 = d2) /\
+  ((forall d, d_thr ds d = None) -> forall pid, d_lock ds pid = false).
+Proof.
+  exact (fun ls ds H => conj (proj1 (newconn_lock_exclusive ls ds H))
+                         (conj (proj2 (newconn_lock_exclusive ls ds H)) (newconn_lock_released ls ds H))).
+Qed.
+Print Assumptions C16_newconn_lock.
+
+(* What the tie excludes.  The VARIANT whose canRemove also wants a free newConnLock (drun_gen true):
+   host:port 7 restarts while a caller keeps calling it -- Ping(7) hangs in the dial holding the
+   lock of peer 1; 7 connects to us and closes that connection again; the dial fails.  Nothing is in
+   flight any more, peer 1 has no connection, no reference, lost its connection last -- and stays in
+   the root list. *)
+Theorem C16_dial_gate_refuted :
+  exists ls ds, drun_gen true dinit ls = Some ds /\ dquiescent ds /\ ~ peer_gc (d_s ds).
+Proof. exact wd_gate_refutes. Qed.
+Print Assumptions C16_dial_gate_refuted.
+
+(* Non-vacuity: the same history on the code as it is: peer 1 has left the root list, two status
+   callbacks (gained, lost), the channel tracks nothing. *)
+Example C16_dial_example_collected :
+  exists ds, drun dinit wd = Some ds /\ dquiescent ds /\ s_root (d_s ds) 7 = None /\
+             s_log (d_s ds) = [7; 7] /\ s_inch (d_s ds) 2 = false.
+Proof. exact wd_collected. Qed.
+
+(* ------------------------------------------------------------------------------------------------
+   Under WHICH host:port a connection is listed (k_rhp of Model/PeerBook.v): the host:port the peer
+   announced in the handshake, unless that is ephemeral ("", "0.0.0.0:0", ENDING in ":0"): then the
+   socket address.  isEphemeralHostPort is regenerated from peer.go (Gen/GenHandshake.v). *)
+From Verif Require Import Gen.GenHandshake Model.Handshake Spec.HandshakeSpec Proofs.PeerKeyP.
+
+Theorem C16_listed_key : forall p addr hp pn,
+  lookup c_InitParamHostPort p = Some hp -> lookup c_InitParamProcessName p = Some pn ->
+  exists pi, parse_remote_peer p addr = inr pi /\
+    (ephemeral_hp hp -> pi_hostport pi = addr /\ pi_ephemeral pi = true) /\
+    (~ ephemeral_hp hp -> pi_hostport pi = hp /\ pi_ephemeral pi = false).
+Proof. exact listed_key. Qed.
+Print Assumptions C16_listed_key.
+
+(* "[2001:db8:0:1::5]:4040", "[fd00:0:0:1::2]:21300", "10.0.0.7:0x", "10.0.0.7:01", "h:0:1" are
+   host:ports of listening peers; "[2001:db8:0:1::5]:0", "host:0", "" are ephemeral *)
+Example C16_odd_hostports :
+  (~ ephemeral_hp hp_v6_zero_group /\ ~ ephemeral_hp hp_v6_ula /\ ~ ephemeral_hp hp_port_0x /\
+   ~ ephemeral_hp hp_port_01 /\ ~ ephemeral_hp hp_colon0_inside) /\
+  (ephemeral_hp hp_v6_port0 /\ ephemeral_hp hp_host_port0 /\ ephemeral_hp []).
+Proof. exact (conj odd_hostports_listen port0_hostports_ephemeral). Qed.
